@@ -94,9 +94,16 @@ theorem batch_padding_is_noop (ops : List Op) :
   have := decodeGroup_pad (b.opCounts.getD i 0) (9 - b.opCounts.getD i 0) (b.groups.getD i 0) hlt
   rwa [Nat.add_sub_cancel' hle] at this
 
+/-- Immediates are placed in the groups that follow their operation's group: the groups of a batch
+    below `numGroups` that hold no operations (count 0) hold exactly the immediates of the batch's
+    operations, in order - for every operation sequence. -/
+theorem batch_immediates (ops : List Op) :
+    ∀ b ∈ batchOps ops, immsOf b.groups b.opCounts b.numGroups b.numGroups = b.ops.filterMap Op.imm :=
+  batchOps_imm ops
+
 -- Non-vacuity: a batch with pushes (immediate groups have count 0) and a partially filled last group.
-example : (batchOps [Op.push 1, .add, .push 2, .mul]).map (fun b => (b.groups, b.opCounts, codesOf b.groups b.opCounts))
-    = [([(100 + 34 * 128 + 100 * 128 ^ 2 + 35 * 128 ^ 3), 1, 2, 0, 0, 0, 0, 0], [4, 0, 0, 0, 0, 0, 0, 0], [100, 34, 100, 35])] := by
+example : (batchOps [Op.push 1, .add, .push 2, .mul]).map (fun b => (b.groups, b.opCounts, codesOf b.groups b.opCounts, immsOf b.groups b.opCounts b.numGroups b.numGroups))
+    = [([(100 + 34 * 128 + 100 * 128 ^ 2 + 35 * 128 ^ 3), 1, 2, 0, 0, 0, 0, 0], [4, 0, 0, 0, 0, 0, 0, 0], [100, 34, 100, 35], [1, 2])] := by
   decide
 
 -- Non-vacuity: a concrete span with pushes crossing a group boundary satisfies the statements.
